@@ -293,6 +293,48 @@ def build_model(spec, shared=None, seed=True):
     return cls(**ctor)
 
 
+def gen_weights(spec):
+    """Observation weights for a kernel estimate: {'n', 'seed', 'kind'}; 'tilt' grows with the
+    row number, 'sparse' gives most of the mass to a few rows, 'int' is an integer array."""
+    n = int(spec['n'])
+    rs = np.random.RandomState(spec.get('seed', 0) % (2**32))
+    kind = spec.get('kind', 'tilt')
+    if kind == 'tilt':
+        return np.linspace(0.2, 3.0, n) * rs.uniform(0.8, 1.2, size=n)
+    if kind == 'sparse':
+        w = np.full(n, 0.05)
+        w[rs.choice(n, size=max(2, n // 10), replace=False)] = 5.0
+        return w
+    if kind == 'int':
+        return rs.randint(1, 6, size=n).astype(np.int64)
+    raise ValueError(kind)
+
+
+class ConfigMap(dict):
+    """A caller's own dict subclass (a per-column configuration read from a settings file)."""
+
+
+MAP_KINDS = ['dict', 'dict', 'dict', 'ordered', 'subclass']
+
+
+def make_map(items, kind=None):
+    """The mapping container a caller may legitimately hand over: any dict."""
+    if kind in (None, 'dict'):
+        return dict(items)
+    if kind == 'ordered':
+        import collections
+        return collections.OrderedDict(items)
+    if kind == 'subclass':
+        return ConfigMap(items)
+    raise ValueError(kind)
+
+
+def mapkind_for(*key):
+    """Container kind derived from the content (the run generator's PRNG is not consulted)."""
+    from copsim.core import derive_seed
+    return MAP_KINDS[derive_seed('mapkind', *key) % len(MAP_KINDS)]
+
+
 def decode_ctor(ctor):
     out = {}
     for k, v in ctor.items():
@@ -304,9 +346,12 @@ def decode_ctor(ctor):
             mod, name, member = v['__enum__']
             out[k] = getattr(load_class(mod + '.' + name), member)
         elif isinstance(v, dict) and '__map__' in v:
-            out[k] = {kk: decode_ctor({'x': vv})['x'] for kk, vv in v['__map__'].items()}
+            out[k] = make_map({kk: decode_ctor({'x': vv})['x'] for kk, vv in v['__map__'].items()},
+                              v.get('__mapkind__'))
         elif isinstance(v, list) and k == 'candidates':
             out[k] = [decode_ctor({'x': c})['x'] for c in v]
+        elif isinstance(v, dict) and v.get('__gen__') == 'weights':
+            out[k] = gen_weights(v)
         elif isinstance(v, dict) and '__nd__' in v:
             out[k] = np.array(v['__nd__'], dtype=float)
         elif isinstance(v, dict) and '__ndint__' in v:
@@ -323,6 +368,8 @@ def fit_model(model, spec, data, poison=None):
     kind = kind_of(spec['cls'])
     if kind == 'vine':
         from copsim.seams import Poison
+        if spec.get('vine_model'):
+            model.model = load_class(spec['vine_model'])
         with Poison(poison or spec.get('poison', 'zero'), seed=spec.get('poison_seed', 0)):
             model.fit(data, truncated=spec.get('truncated', 3))
     else:
